@@ -12,9 +12,10 @@ import (
 	"database/sql"
 	"encoding/json"
 	"fmt"
+	"os"
 	"sort"
 	"strings"
-	"sync"
+	"sync/atomic"
 	"time"
 
 	"gorm.io/gorm"
@@ -58,7 +59,8 @@ func (Prop) Assumptions() []string {
 	}
 }
 
-var opKinds = []string{"create", "create", "create_full", "first", "find", "preload", "preload_all", "joins", "update", "updates", "delete", "delete_pet", "tx", "tx_fail", "assoc_append", "assoc_find", "assoc_count", "note", "note_find", "count", "save", "gadget", "gadget", "dry_gadget", "dry_gadget", "dry_create", "dry_update", "dry_find", "dry_delete"}
+var opKinds = []string{"create", "create", "create_full", "first", "find", "preload", "preload_all", "joins", "update", "updates", "delete", "delete_pet", "tx", "tx_fail", "assoc_append", "assoc_find", "assoc_count", "note", "note_find", "count", "save", "gadget", "gadget", "dry_gadget", "dry_gadget", "dry_create", "dry_update", "dry_find", "dry_delete",
+	"assoc_replace", "assoc_clear", "assoc_delete", "assoc_replace_account", "assoc_delete_company", "assoc_replace_langs"}
 
 func (Prop) Gen(r *core.Rand, tier string) interface{} {
 	g := 2 + r.Intn(3)
@@ -308,6 +310,25 @@ func runOp(db *gorm.DB, t int, op Op) string {
 	case "assoc_append":
 		err := db.Model(&fam.User{ID: id}).Association("Pets").Append(&fam.Pet{ID: id + 3 + uint(op.X%5), Name: "appended"})
 		return fmt.Sprintf("err=%v", err)
+	case "assoc_replace":
+		err := db.Model(&fam.User{ID: id}).Association("Pets").Replace(&fam.Pet{ID: id + 8, Name: "replaced"})
+		return fmt.Sprintf("err=%v", err)
+	case "assoc_clear":
+		err := db.Model(&fam.User{ID: id}).Association("Pets").Clear()
+		return fmt.Sprintf("err=%v", err)
+	case "assoc_delete":
+		err := db.Model(&fam.User{ID: id}).Association("Pets").Delete(&fam.Pet{ID: id + 1})
+		return fmt.Sprintf("err=%v", err)
+	case "assoc_replace_account":
+		err := db.Model(&fam.User{ID: id}).Association("Account").Replace(&fam.Account{ID: id + 21, Number: fmt.Sprintf("racc%d", op.X)})
+		return fmt.Sprintf("err=%v", err)
+	case "assoc_delete_company":
+		cid := uint(100000*(t+1) + 90000 + op.J)
+		err := db.Model(&fam.User{ID: id, CompanyID: &cid}).Association("Company").Delete(&fam.Company{ID: cid})
+		return fmt.Sprintf("err=%v", err)
+	case "assoc_replace_langs":
+		err := db.Model(&fam.User{ID: id}).Association("Languages").Replace(&fam.Language{Code: fmt.Sprintf("R%d_%d", t, op.J), Name: "rl"})
+		return fmt.Sprintf("err=%v", err)
 	case "assoc_find":
 		var ps []fam.Pet
 		err := db.Model(&fam.User{ID: id}).Association("Pets").Find(&ps)
@@ -382,7 +403,7 @@ func (p Prop) open(c *Case, s *sched.Sched) (*env.Env, *simpool.Pool, error) {
 	o := env.Options{PrepareStmt: c.Prepare, File: true, NoFixture: true, FixedClock: true}
 	o.WrapPool = func(db *sql.DB, drv *simdrv.Sim) gorm.ConnPool {
 		pool = simpool.New(db, drv)
-		pool.UseToken = true
+		pool.UseToken = os.Getenv("DBG_NOTOKEN") == ""
 		return pool
 	}
 	if s != nil {
@@ -413,32 +434,94 @@ type yieldPool struct {
 // poolState is a simulated sync.Pool: a LIFO free list shared by all tasks, so
 // that Get returns the value most recently Put by anybody (which sync.Pool is
 // free to do, and whether it does depends on the runtime's placement of
-// goroutines on Ps - a source of nondeterminism the simulator must own).  The
-// mutex gives the same Put-happens-before-Get edge sync.Pool gives.
+// goroutines on Ps - a source of nondeterminism the simulator must own).  Like
+// sync.Pool it orders a Put before the Get that receives the same value and
+// nothing else: the list itself is touched only in //go:norace code, and every
+// entry carries its own atomic word for the release/acquire pair (a mutex around
+// the list would order every task's Put before every later Get of any task and
+// hide races from the detector).
 type poolState struct {
-	mu   sync.Mutex
-	free []interface{}
+	free []*poolEntry
+	// perTask (race builds): a value is handed back only to the task that Put it.
+	// The shared LIFO maximises hand-overs between tasks, which is what the
+	// differential oracle wants, but every hand-over is also a happens-before edge
+	// (as with sync.Pool) that orders the two tasks for the race detector.
+	perTask [sched.MaxTasks][]*poolEntry
+}
+
+// RaceBuild is set by the worker binary when it was built with -race.
+var RaceBuild bool
+
+type poolEntry struct {
+	v    interface{}
+	sync uint32
+}
+
+//go:norace
+func (st *poolState) push(e *poolEntry) bool {
+	if len(st.free) == cap(st.free) {
+		return false
+	}
+	st.free = append(st.free, e)
+	return true
+}
+
+//go:norace
+func (st *poolState) pop() *poolEntry {
+	n := len(st.free)
+	if n == 0 {
+		return nil
+	}
+	e := st.free[n-1]
+	st.free = st.free[:n-1]
+	return e
+}
+
+//go:norace
+func (st *poolState) pushTask(t int, e *poolEntry) {
+	if t >= 0 && t < len(st.perTask) && len(st.perTask[t]) < 64 {
+		st.perTask[t] = append(st.perTask[t], e)
+	}
+}
+
+//go:norace
+func (st *poolState) popTask(t int) *poolEntry {
+	if t < 0 || t >= len(st.perTask) {
+		return nil
+	}
+	n := len(st.perTask[t])
+	if n == 0 {
+		return nil
+	}
+	e := st.perTask[t][n-1]
+	st.perTask[t] = st.perTask[t][:n-1]
+	return e
 }
 
 func (p yieldPool) Get() interface{} {
 	p.s.Yield("valuepool:get")
-	p.st.mu.Lock()
-	var v interface{}
-	if n := len(p.st.free); n > 0 {
-		v = p.st.free[n-1]
-		p.st.free = p.st.free[:n-1]
+	if RaceBuild {
+		if e := p.st.popTask(p.s.Cur()); e != nil {
+			return e.v
+		}
+		return p.in.Get()
 	}
-	p.st.mu.Unlock()
-	if v == nil {
-		v = p.in.Get() // the real pool is never Put into: this allocates a fresh value
+	if e := p.st.pop(); e != nil {
+		atomic.LoadUint32(&e.sync) // acquire: ordered after the Put of this very value
+		return e.v
 	}
-	return v
+	return p.in.Get() // the real pool is never Put into: this allocates a fresh value
 }
 
 func (p yieldPool) Put(v interface{}) {
-	p.st.mu.Lock()
-	p.st.free = append(p.st.free, v)
-	p.st.mu.Unlock()
+	if RaceBuild {
+		p.st.pushTask(p.s.Cur(), &poolEntry{v: v})
+		p.s.Yield("valuepool:put")
+		return
+	}
+	e := &poolEntry{v: v}
+	atomic.StoreUint32(&e.sync, 1) // release
+	p.st.push(e)
 	p.s.Yield("valuepool:put")
 }
 
@@ -458,7 +541,7 @@ func warm(db *gorm.DB, s *sched.Sched) {
 				if _, done := f.NewValuePool.(yieldPool); !done && f.NewValuePool != nil {
 					st := states[f.NewValuePool]
 					if st == nil {
-						st = &poolState{}
+						st = &poolState{free: make([]*poolEntry, 0, 8192)}
 						states[f.NewValuePool] = st
 					}
 					f.NewValuePool = yieldPool{in: f.NewValuePool, s: s, st: st}
